@@ -253,7 +253,17 @@ func prepare(tc tcase) *built {
 			b.hi = i + 1
 		}
 	}
-	if tc.scope != "" && (b.lo == 0 || (tc.scope != "top" && b.hi == 0)) && b.err == "" {
+	if tc.scope == "deferred-tail" {
+		// the deferred macro is the last thing that writes: its first write
+		// is the last "<d>" of the clean run
+		b.lo, b.hi = 0, 0
+		for i, c := range rec.calls {
+			if string(c) == "<d>" {
+				b.lo = i + 1
+			}
+		}
+	}
+	if tc.scope != "" && (b.lo == 0 || (tc.scope == "macro" && b.hi == 0)) && b.err == "" {
 		b.err = "recover scope markers not found in the clean run"
 	}
 	return b
@@ -324,6 +334,23 @@ func evalFault(b *built, k, shape int) kit.Outcome {
 	case "top":
 		if k >= b.lo {
 			recovered = true
+		}
+	case "deferred-tail":
+		// a failure before the deferred call starts: the deferred call runs
+		// while the body is panicking (Go semantics) and its writes succeed;
+		// the run still ends with E.
+		if k < b.lo && len(rec.calls) >= k {
+			want := b.clean[b.lo-1:]
+			got := rec.calls[k:]
+			same := len(got) == len(want)
+			for i := 0; same && i < len(got); i++ {
+				same = bytes.Equal(got[i], want[i])
+			}
+			if !same {
+				return kit.Outcome{Key: "deferred-call|writes-after-failure-differ", Detail: detail(fmt.Sprintf("after the failure the writer should receive only the output of the deferred macro call: %s", join(want))), Class: "fail", Nontrivial: true}
+			}
+			rec.after = 0
+			o.Class = "aborted with E, deferred macro call ran"
 		}
 	}
 	// the calls up to the failing one must be those of the clean run
@@ -445,20 +472,21 @@ func spaces(tier string) []kit.Space {
 			Describe: func(i uint64) any { return broken[i].tc.name },
 		})
 	}
-	return sps
+	return append(sps, convDeferSpace()...)
 }
 
 func main() {
 	kit.Main(&kit.Check{
 		ID:    "C13",
 		Level: "fault_enumeration",
-		Rule:  "write-faults: for every template of the list, every failing Write index k = 1..W (W = Write calls of a clean run) × 3 failure shapes {(0,E), (len/2,E), (len,E)}; panic-structure: 3 placements of the core (body, macro, imported macro) × 7 deferred kinds of the core × 4 deferred kinds of the body (incl. deferred macros that write, one of them recovering) × {no own panic, own panic before / after the second text} × every failure set {k} and {k, k2} over the 8 possible write calls; cancel-race: every template that does not recover × every k × {context cancelled by the writer at the failing write, at the write before}. Complete in k. A case is non-trivial when a write really fails",
+		Rule:  "write-faults: for every template of the list, every failing Write index k = 1..W (W = Write calls of a clean run) × 3 failure shapes {(0,E), (len/2,E), (len,E)}; panic-structure: 3 placements of the core (body, macro, imported macro) × 7 deferred kinds of the core × 4 deferred kinds of the body (incl. deferred macros that write, one of them recovering) × {no own panic, own panic before / after the second text} × every failure set {k} and {k, k2} over the 8 possible write calls; cancel-race: every template that does not recover × every k × {context cancelled by the writer at the failing write, at the write before}; converting-macro-with-defer: 17 ways of using a Markdown macro / partial / using-body from HTML (direct, indirect, imported, rendered partial, show-using, using assigned to a variable, extends, nested in a Markdown or HTML macro with and without a defer, in a loop, caller with a defer, called from a deferred HTML macro of the body) × 5 macro shapes (no defer, defer no-op, two defers, defer recovering a panic of the macro body, defer recovering nothing) × every k × 3 failure shapes. Complete in k. A case is non-trivial when a write really fails",
 		Assumptions: []string{
 			"the template list is fixed (56 templates in quick, plus a 16 contexts × 14 values grid in thorough); faults are single (one failing call, later calls succeed)",
 			"the Markdown converter is a host function that writes in three calls and returns the first write error",
 			"panic-structure: the expected Write calls and the end of the run come from a mirror of the template written with Go's own defer/panic/recover, a failed write being a panic raised by the write as documented; Run must return an error with errors.Is(err, E) when that panic is what ends the run (identity == E is reported as an outcome class, not demanded), nil when it was recovered, a *PanicError with the template's own value when a later panic ends it",
 			"cancel-race: the writer sleeps 2 ms after cancel() so that the interpreter's watcher has seen the cancellation when Write returns (deterministic ordering); if the failing write was reached the property demands the writer's error, otherwise the context's error is the documented result",
 			"a macro deferred INSIDE a macro is not part of the family: on the current tree its output is dropped and its recover() has no effect even with a healthy writer (reported separately)",
+			"converting-macro-with-defer: when the converting macro is reached from a deferred macro call of the body and the failing write precedes it, the deferred call runs while the body is panicking (Go semantics) and its writes are expected; Run must still return E. Calling a macro from a deferred function LITERAL, or deferring a macro inside a macro, is not in the family: on the current tree the output of such calls is dropped and nothing is converted",
 			"for templates that recover: Go semantics — execution continues after the function that deferred the recovering call",
 		},
 		Spaces: spaces,
